@@ -93,6 +93,12 @@ CHECKS['C14'] = dict(
     note='in-context tokenisation reading of "snippet that parses"; value/coordinate equalities computed on the real objects',
     ref='6/C14')
 
+CHECKS['C15'] = dict(
+    technique='window/representation parameters of the TLA+ lexer and LineCounter specifications (model-checked for every window start) + trace validation by TLC of real results for bytes and TextSlice variants against the real result of the extracted substring shifted, and against Coord over the buffer',
+    text='For random terminal sets and tree grammars, buffers with newlines and every kind of window (complete, inner, after a newline, negative indices), each parser/lexer pair that accepts the representation parses the window as TextSlice, bytes TextSlice and bytes substring; TLC compares the flattened result (token types and values, node labels, offsets, meta) with the parse of the extracted substring as str shifted by the window start, recomputes every line/column from the newline offsets of the whole buffer, and compares error class, position and coordinates.',
+    note='ASCII input; dynamic lexers accept str and bytes only; an unexpected $END on a window without tokens carries default coordinates (exempt)',
+    ref='6/C15')
+
 NOT_APPLICABLE = []
 
 
